@@ -21,9 +21,13 @@ func (s ExploreRecursiveEdge) Interests() []datamodel.PathSegment {
 	return []datamodel.PathSegment{}
 }
 
-// Explore should ultimately never get called for an ExploreRecursiveEdge selector
+// Explore should ultimately never get called for an ExploreRecursiveEdge selector:
+// the enclosing ExploreRecursive replaces edges before they are explored.
+// A selector can still be composed so that an edge is reached directly
+// (e.g. as an immediate member of a union that is the recursion's sequence);
+// that is reported as an error rather than a panic, since selectors may come from untrusted input.
 func (s ExploreRecursiveEdge) Explore(n datamodel.Node, p datamodel.PathSegment) (Selector, error) {
-	panic("Traversed Explore Recursive Edge Node With No Parent")
+	return nil, fmt.Errorf("selector traversal error: explored an ExploreRecursiveEdge that was not replaced by its enclosing ExploreRecursive")
 }
 
 // Decide should almost never get called for an ExploreRecursiveEdge selector
